@@ -487,6 +487,37 @@ func c17R3(p *core.Prog, r *core.Report, pi *pqInfo) {
 		r.MissingAnchor(rule, pqRel+".(*Queue).Acquire")
 		return
 	}
+	// Acquire may be a wrapper of the function that does the waiting (`return q.acquire(ctx, e, true)`):
+	// the rule is about the function that enqueues
+	enqueues := func(f *ssa.Function) bool {
+		for _, b := range f.Blocks {
+			n := 0
+			for _, in := range b.Instrs {
+				if pi.storeField(in) != "" {
+					n++
+				}
+			}
+			if n >= 2 {
+				return true
+			}
+		}
+		return false
+	}
+	if !enqueues(fn) {
+		core.Calls(fn, func(c ssa.CallInstruction) {
+			g := core.CalleeFn(c)
+			if g != nil && !enqueues(g) {
+				if obj := core.Callee(c); obj != nil {
+					if og := p.SSA.FuncValue(obj.Origin()); og != nil {
+						g = og
+					}
+				}
+			}
+			if g != nil && core.FuncPkg(g) != nil && core.FuncPkg(g).Path() == modPath(pqRel) && enqueues(g) {
+				fn = g
+			}
+		})
+	}
 	fname := p.FuncName(fn)
 	// enqueue: the block that appends to two mutable fields (entry list and channel list)
 	var enq *ssa.BasicBlock
